@@ -2,6 +2,7 @@
 package c04
 
 import (
+	"verifharness/c18"
 	"verifharness/core"
 	"verifharness/netsim"
 )
@@ -16,6 +17,13 @@ func Main() {
 	r.Cases("scenario", netsim.NumScenarioCases(), core.Opts{Procs: 16, StallSec: 300}, func(c *core.Case) { netsim.ScenarioCase(c, "C04") })
 	r.Cases("attack", len(netsim.Attacks)*len(netsim.AttackCfgs()), core.Opts{Procs: 16, StallSec: 300}, func(c *core.Case) { netsim.AttackCase(c, "C04") })
 	r.Cases("random", r.N(400, 8000), core.Opts{Procs: 16, StallSec: 300}, func(c *core.Case) { netsim.RandomCase(c, "C04", 7, 400) })
+	// the real reactor's gossip routines against scripted lagging peers (what the simulator's gossip emulation replaces)
+	r.Assume("gossip-delivery: a peer's latest NewRoundStep/NewValidBlock announcement is what it is at and what it holds; the node's own state is frozen while its gossip goroutines serve the peer")
+	r.Cases("gossip-delivery", r.N(32, 600), core.Opts{Procs: 16, StallSec: 300}, c18.GossipCase)
+	r.Floor("gossip_votes_expected:precommits-of-the-peers-round", 20)
+	r.Floor("gossip_votes_expected:prevotes-of-the-peers-round", 20)
+	r.Floor("gossip_parts_expected:catch-up", 5)
+	r.Floor("gossip_parts_expected:after-announcement:valid-block", 5)
 	if !r.Quick() {
 		// E-live: real reactors, switches and tickers (no race instrumentation here; C03's thorough tier runs it under -race)
 		r.Cases("live", 24, core.Opts{Procs: 4, StallSec: 1500, InconclusiveFatal: []string{"lib/p2p.Connect2Switches"}}, func(c *core.Case) { netsim.LiveCase(c, "C04") })
